@@ -40,6 +40,25 @@ syntax (name := unfoldGeneratedHelpers) "unfold_generated_helpers" (" keeping " 
     for c in todo do
       evalTactic (← `(tactic| unfold $(mkIdent c)))
 
+/-- `unfold_generated_consts`: unfold, in the goal, every CONSTANT (a `def` without parameters: a Rust `const`) of the generated file
+    that occurs in it — a proof does not depend on whether the source writes a literal or names it. -/
+syntax (name := unfoldGeneratedConsts) "unfold_generated_consts" : tactic
+
+@[tactic unfoldGeneratedConsts] def evalUnfoldGeneratedConsts : Tactic := fun _ => do
+  let env ← getEnv
+  let some modIdx := env.getModuleIdx? `KestrelModel.GeneratedCli | throwError "generated module not imported"
+  for _ in [0:4] do
+    let goal ← instantiateMVars (← getMainTarget)
+    let mut todo : Array Name := #[]
+    for c in goal.getUsedConstants do
+      if env.getModuleIdxFor? c != some modIdx || c.isInternal then continue
+      let some (.defnInfo info) := env.find? c | continue
+      if info.type.isForall then continue
+      todo := todo.push c
+    if todo.isEmpty then return
+    for c in todo do
+      evalTactic (← `(tactic| unfold $(mkIdent c)))
+
 end
 
 namespace Kestrel
@@ -56,6 +75,14 @@ open RsStr RsCli Cli
 @[simp] theorem propagate_ok (a : α) (g : ε → ρ) : (Flow.propagate (.ok a) g : Flow ρ κ α) = .next a := rfl
 @[simp] theorem propagate_error (e : ε) (g : ε → ρ) : (Flow.propagate (.error e : Except ε α) g : Flow ρ κ α) = .ret (g e) := rfl
 @[simp] theorem forIn_nil (f : α → σ → Flow ρ σ σ) (s : σ) : (RsStr.forIn [] f s : Flow ρ κ σ) = .next s := rfl
+
+@[simp] theorem map_err_ok (a : α) (f : ε → ε') : RsStr.map_err (.ok a : Except ε α) f = .ok a := rfl
+@[simp] theorem map_err_error (e : ε) (f : ε → ε') : RsStr.map_err (.error e : Except ε α) f = .error (f e) := rfl
+@[simp] theorem except_map_ok (a : α) (f : α → β) : Except.map f (.ok a : Except ε α) = .ok (f a) := rfl
+@[simp] theorem except_map_error (e : ε) (f : α → β) : Except.map f (.error e : Except ε α) = .error e := rfl
+
+@[simp] theorem ok_or_else_some (a : α) (f : Unit → ε) : RsCli.ok_or_else (some a) f = .ok a := rfl
+@[simp] theorem ok_or_else_none (f : Unit → ε) : RsCli.ok_or_else (none : Option α) f = .error (f ()) := rfl
 
 theorem forIn_cons (a : α) (as : List α) (f : α → σ → Flow ρ σ σ) (s : σ) :
     (RsStr.forIn (a :: as) f s : Flow ρ κ σ) =
@@ -239,12 +266,9 @@ theorem parse_encrypt_eq (args : List Str) : reqEncrypt (parse_encrypt args) = p
   | some m =>
     obtain ⟨to, hto⟩ := getopts_required h (id := 0) (o := optT) rfl rfl rfl
     obtain ⟨fr, hfr⟩ := getopts_required h (id := 1) (o := optF) rfl rfl rfl
-    simp only [bind_next, free_mk, opt_str_mk _ _ _ _ find_enc_t, opt_str_mk _ _ _ _ find_enc_f, opt_str_mk _ _ _ _ find_enc_o,
-      opt_str_mk _ _ _ _ find_enc_k, opt_present_mk _ _ _ _ find_enc_e, hto, hfr, infileOf_eq, decide_eq_true_eq]
-    by_cases hl : m.free.length > 1
-    · simp only [hl, if_true, bind_ret, run_ret, propagate_error, decide_true, decide_false]; rfl
-    · simp only [hl, if_false, bind_next, run_next, propagate_ok, decide_true, decide_false, Bool.false_eq_true]
-      exact congrArg (fun i => Request.encrypt i to fr (optStr m 2) (optStr m 3) (optPresent m 4)) (infile_eq _ hl)
+    simp only [bind_next, map_err_ok, propagate_ok, free_mk, opt_str_mk _ _ _ _ find_enc_t, opt_str_mk _ _ _ _ find_enc_f,
+      opt_str_mk _ _ _ _ find_enc_o, opt_str_mk _ _ _ _ find_enc_k, opt_present_mk _ _ _ _ find_enc_e, hto, hfr, infileOf]
+    rcases m with ⟨vals, _ | ⟨f, _ | ⟨g, r⟩⟩⟩ <;> rfl
 
 theorem parse_decrypt_eq (args : List Str) : reqDecrypt (parse_decrypt args) = parseDecrypt args := by
   unfold parse_decrypt parseDecrypt
@@ -255,12 +279,9 @@ theorem parse_decrypt_eq (args : List Str) : reqDecrypt (parse_decrypt args) = p
   | none => rfl
   | some m =>
     obtain ⟨to, hto⟩ := getopts_required h (id := 0) (o := optT) rfl rfl rfl
-    simp only [bind_next, free_mk, opt_str_mk _ _ _ _ find_dec_t, opt_str_mk _ _ _ _ find_dec_o,
-      opt_str_mk _ _ _ _ find_dec_k, opt_present_mk _ _ _ _ find_dec_e, hto, infileOf_eq, decide_eq_true_eq]
-    by_cases hl : m.free.length > 1
-    · simp only [hl, if_true, bind_ret, run_ret, propagate_error, decide_true, decide_false]; rfl
-    · simp only [hl, if_false, bind_next, run_next, propagate_ok, decide_true, decide_false, Bool.false_eq_true]
-      exact congrArg (fun i => Request.decrypt i to (optStr m 1) (optStr m 2) (optPresent m 3)) (infile_eq _ hl)
+    simp only [bind_next, map_err_ok, propagate_ok, free_mk, opt_str_mk _ _ _ _ find_dec_t, opt_str_mk _ _ _ _ find_dec_o,
+      opt_str_mk _ _ _ _ find_dec_k, opt_present_mk _ _ _ _ find_dec_e, hto, infileOf]
+    rcases m with ⟨vals, _ | ⟨f, _ | ⟨g, r⟩⟩⟩ <;> rfl
 
 /-- what both password parsers compute, in the model's terms -/
 def passReq (mk : Option Str → Option Str → Bool → Request) (args : List Str) : Request :=
@@ -279,11 +300,8 @@ theorem parse_pass_encrypt_eq (args : List Str) : reqPassEncrypt (parse_pass_enc
   cases h : getopts [optO, optE] args with
   | none => rfl
   | some m =>
-    simp only [bind_next, free_mk, opt_str_mk _ _ _ _ find_oe_o, opt_present_mk _ _ _ _ find_oe_e, infileOf_eq, decide_eq_true_eq]
-    by_cases hl : m.free.length > 1
-    · simp only [hl, if_true, bind_ret, run_ret, propagate_error, decide_true, decide_false]; rfl
-    · simp only [hl, if_false, bind_next, run_next, propagate_ok, decide_true, decide_false, Bool.false_eq_true]
-      exact congrArg (fun i => Request.passEncrypt i (optStr m 0) (optPresent m 1)) (infile_eq _ hl)
+    simp only [bind_next, map_err_ok, propagate_ok, free_mk, opt_str_mk _ _ _ _ find_oe_o, opt_present_mk _ _ _ _ find_oe_e, infileOf]
+    rcases m with ⟨vals, _ | ⟨f, _ | ⟨g, r⟩⟩⟩ <;> rfl
 
 theorem parse_pass_decrypt_eq (args : List Str) : reqPassDecrypt (parse_pass_decrypt args) = passReq .passDecrypt args := by
   unfold parse_pass_decrypt passReq
@@ -293,11 +311,8 @@ theorem parse_pass_decrypt_eq (args : List Str) : reqPassDecrypt (parse_pass_dec
   cases h : getopts [optO, optE] args with
   | none => rfl
   | some m =>
-    simp only [bind_next, free_mk, opt_str_mk _ _ _ _ find_oe_o, opt_present_mk _ _ _ _ find_oe_e, infileOf_eq, decide_eq_true_eq]
-    by_cases hl : m.free.length > 1
-    · simp only [hl, if_true, bind_ret, run_ret, propagate_error, decide_true, decide_false]; rfl
-    · simp only [hl, if_false, bind_next, run_next, propagate_ok, decide_true, decide_false, Bool.false_eq_true]
-      exact congrArg (fun i => Request.passDecrypt i (optStr m 0) (optPresent m 1)) (infile_eq _ hl)
+    simp only [bind_next, map_err_ok, propagate_ok, free_mk, opt_str_mk _ _ _ _ find_oe_o, opt_present_mk _ _ _ _ find_oe_e, infileOf]
+    rcases m with ⟨vals, _ | ⟨f, _ | ⟨g, r⟩⟩⟩ <;> rfl
 
 theorem slice_args_cons1 (a : Str) (l : List Str) : slice_args (a :: l) 1 = l := by
   unfold slice_args
@@ -353,37 +368,23 @@ theorem parse_key_eq (args : List Str) : reqKey (parse_key args) = parseKey args
       cases h : getopts [optO, optE] rest with
       | none => rfl
       | some m =>
-        simp only [bind_next, run_next, opt_str_mk _ _ _ _ find_oe_o, opt_present_mk _ _ _ _ find_oe_e]; rfl
+        simp only [bind_next, map_err_ok, propagate_ok, run_next, opt_str_mk _ _ _ _ find_oe_o, opt_present_mk _ _ _ _ find_oe_e]; rfl
     · simp only [hg, if_false]
       by_cases hc : sub = str "change-pass"
       · simp only [hc, if_true]
         cases h : getopts [optE] rest with
         | none => rfl
         | some m =>
-          simp only [bind_next, free_mk, opt_present_mk _ _ _ _ find_e_e, bne_iff_ne, ne_eq]
-          by_cases hl : m.free.length = 1
-          · simp only [hl, not_true_eq_false, if_false, bind_next, run_next]
-            match hm : m.free, hl with
-            | [k], _ => rfl
-          · simp only [hl, not_false_eq_true, if_true, bind_ret, run_ret]
-            split
-            · rename_i k hk; exact absurd (by rw [hk]; rfl) hl
-            · rfl
+          simp only [bind_next, map_err_ok, propagate_ok, free_mk, opt_present_mk _ _ _ _ find_e_e]
+          rcases m with ⟨vals, _ | ⟨k, _ | ⟨g, r⟩⟩⟩ <;> rfl
       · simp only [hc, if_false]
         by_cases hx : sub = str "extract-pub"
         · simp only [hx, if_true]
           cases h : getopts [optE] rest with
           | none => rfl
           | some m =>
-            simp only [bind_next, free_mk, opt_present_mk _ _ _ _ find_e_e, bne_iff_ne, ne_eq]
-            by_cases hl : m.free.length = 1
-            · simp only [hl, not_true_eq_false, if_false, bind_next, run_next]
-              match hm : m.free, hl with
-              | [k], _ => rfl
-            · simp only [hl, not_false_eq_true, if_true, bind_ret, run_ret]
-              split
-              · rename_i k hk; exact absurd (by rw [hk]; rfl) hl
-              · rfl
+            simp only [bind_next, map_err_ok, propagate_ok, free_mk, opt_present_mk _ _ _ _ find_e_e]
+            rcases m with ⟨vals, _ | ⟨k, _ | ⟨g, r⟩⟩⟩ <;> rfl
         · simp only [hx, if_false]; rfl
 
 
@@ -401,12 +402,36 @@ theorem foldl_snoc (l : List α) (acc : List α) : l.foldl (fun s a => s ++ [a])
   | nil => simp
   | cons a l ih => rw [List.foldl_cons, ih]; simp
 
-/-- arguments that are valid Unicode are converted to themselves -/
+/-- `collect` into a `Result`: every element succeeds -/
+theorem collect_results_map_ok (f : α → Except ε β) (g : α → β) (hf : ∀ a, f a = .ok (g a)) :
+    ∀ l : List α, collect_results (l.map f) = .ok (l.map g)
+  | [] => rfl
+  | a :: l => by simp only [List.map_cons, hf a, collect_results, collect_results_map_ok f g hf l]
+
+/-- `collect` into a `Result`: some element fails, and every element that fails does so with the error `e` -/
+theorem collect_results_map_error (f : α → Except ε β) (e : ε) (hf : ∀ a, f a = .error e ∨ ∃ b, f a = .ok b) :
+    ∀ l : List α, (∃ a ∈ l, f a = .error e) → collect_results (l.map f) = .error e
+  | [], h => by obtain ⟨a, ha, _⟩ := h; cases ha
+  | a :: l, h => by
+    rcases hf a with he | ⟨b, hb⟩
+    · simp only [List.map_cons, he, collect_results]
+    · have : ∃ a ∈ l, f a = .error e := by
+        obtain ⟨a', ha', he'⟩ := h
+        cases ha' with
+        | head => rw [hb] at he'; cases he'
+        | tail _ hm => exact ⟨a', hm, he'⟩
+      simp only [List.map_cons, hb, collect_results, collect_results_map_error f e hf l this]
+
+/-- arguments that are valid Unicode are converted to themselves (whether `convert_args` is a loop that pushes or
+    `iter().map(..).collect()`) -/
 theorem convert_args_unicode (argv : List Str) : convert_args (argv.map OsString.unicode) = .ok argv := by
   unfold convert_args
-  simp only []
-  rw [forIn_map_next _ OsString.unicode (fun a s => s ++ [a]) (fun a s => rfl)]
-  simp only [bind_next, run_next, foldl_snoc, List.nil_append]
+  first
+  | simp only []
+    rw [forIn_map_next _ OsString.unicode (fun a s => s ++ [a]) (fun a s => rfl)]
+    simp only [bind_next, run_next, foldl_snoc, List.nil_append]
+  | rw [List.map_map]
+    exact (collect_results_map_ok _ id (fun a => rfl) argv).trans (congrArg Except.ok (List.map_id argv))
 
 /-- what `try_main` does, as a function of the request: `r` is its result (final process state, `Ok(())` / `Err`) -/
 def Dispatch (api : commands.Api) (sys : Sys) (r : Sys × Except AnyErr Unit) : Request → Prop
@@ -527,9 +552,19 @@ theorem forIn_os_ret (f : OsString → σ → Flow ρ σ σ) (g : Str → σ →
 theorem convert_args_other (args : List OsString) (h : ∃ a ∈ args, a.to_str = none) :
     convert_args args = .error (.msg "Arguments must be valid UTF-8".toList "Arguments must be valid UTF-8".toList) := by
   unfold convert_args
-  simp only []
-  rw [forIn_os_ret _ (fun s acc => acc ++ [s]) _ (fun _ _ => rfl) (fun _ _ => rfl) args [] h]
-  rfl
+  first
+  | simp only []
+    rw [forIn_os_ret _ (fun s acc => acc ++ [s]) _ (fun _ _ => rfl) (fun _ _ => rfl) args [] h]
+    rfl
+  | refine collect_results_map_error _ _ (fun a => ?_) args ?_
+    · cases a with
+      | unicode s => exact .inr ⟨s, rfl⟩
+      | other b => exact .inl rfl
+    · obtain ⟨a, ha, hn⟩ := h
+      refine ⟨a, ha, ?_⟩
+      cases a with
+      | unicode s => cases hn
+      | other b => rfl
 
 /-- … and `try_main` returns that error without printing anything or calling a command -/
 theorem try_main_bad_unicode (api : commands.Api) (sys : Sys) (h : ∃ a ∈ sys.args, a.to_str = none) :
